@@ -8,6 +8,7 @@ package mcp
 //  (e) every byte string up to a length over a JSON-significant alphabet: no panic
 
 import (
+	"bufio"
 	"bytes"
 	"context"
 	"encoding/json"
@@ -874,6 +875,8 @@ func c19CaseSensitivity(cases *verifx.Cases) {
 		{`{"Content":[{"type":"text","text":"x"}]}`, "CallToolResult.content"},
 		{`{"content":[],"IsError":true}`, "CallToolResult.isError"},
 		{`{"content":[{"Type":"text","text":"x"}]}`, "content.type"},
+		{`{"content":[],"inputRequests":{"k":{"METHOD":"roots/list","params":{}}}}`, "inputRequests.method"},
+		{`{"content":[],"inputRequests":{"k":{"method":"elicitation/create","params":{"MESSAGE":"hi","message":""}}}}`, "inputRequests.params.message"},
 	} {
 		idx, mine := cases.Next()
 		if !mine {
@@ -892,6 +895,12 @@ func c19CaseSensitivity(cases *verifx.Cases) {
 				leaked = r.IsError
 			case "content.type":
 				leaked = len(r.Content) == 1
+			case "inputRequests.method":
+				leaked = len(r.InputRequests) == 1
+			case "inputRequests.params.message":
+				if p, ok := r.InputRequests["k"].(*ElicitParams); ok {
+					leaked = p.Message == "hi"
+				}
 			}
 		}
 		if leaked {
@@ -899,6 +908,78 @@ func c19CaseSensitivity(cases *verifx.Cases) {
 			continue
 		}
 		cases.Record(idx, "wrong-case-member-not-accepted", 1, func() string { return tc.text })
+	}
+	// results as a client session decodes them: a raw peer answers tools/list, prompts/list and
+	// resources/read with wrongly-cased members next to (or instead of) the real ones
+	for _, tc := range []struct{ method, result, what string }{
+		{"tools/list", `{"TOOLS":[{"name":"x","inputSchema":{"type":"object"}}]}`, "ListToolsResult.tools"},
+		{"tools/list", `{"tools":[],"NextCursor":"c"}`, "ListToolsResult.nextCursor"},
+		{"tools/list", `{"tools":[{"NAME":"x","name":"y","inputSchema":{"type":"object"}}]}`, "Tool.name"},
+		{"prompts/list", `{"Prompts":[{"name":"p"}]}`, "ListPromptsResult.prompts"},
+		{"resources/read", `{"CONTENTS":[{"uri":"file:///r","text":"x"}],"contents":[]}`, "ReadResourceResult.contents"},
+		{"tools/call", `{"content":[],"inputRequests":{"k":{"METHOD":"roots/list","params":{}}}}`, "inputRequests.method"},
+	} {
+		idx, mine := cases.Next()
+		if !mine {
+			continue
+		}
+		ct, st := NewInMemoryTransports()
+		peer := st.rwc
+		go func() {
+			sc := bufio.NewScanner(peer)
+			sc.Buffer(make([]byte, 1<<20), 1<<20)
+			for sc.Scan() {
+				var m struct {
+					ID     json.RawMessage `json:"id"`
+					Method string          `json:"method"`
+				}
+				if json.Unmarshal(sc.Bytes(), &m) != nil || len(m.ID) == 0 {
+					continue
+				}
+				res := tc.result
+				if m.Method == "initialize" {
+					res = `{"protocolVersion":"2025-06-18","capabilities":{"tools":{},"prompts":{},"resources":{}},"serverInfo":{"name":"peer","version":"1"}}`
+				}
+				io.WriteString(peer, `{"jsonrpc":"2.0","id":`+string(m.ID)+`,"result":`+res+"}\n")
+			}
+		}()
+		ctx := context.Background()
+		c := NewClient(&Implementation{Name: "cli", Version: "1"}, &ClientOptions{Logger: quietLogger})
+		cs, err := c.Connect(ctx, ct, &ClientSessionOptions{ProtocolVersion: "2025-06-18"})
+		if err != nil {
+			cases.Violate(idx, "c19 case-sensitivity setup", err.Error(), 1)
+			continue
+		}
+		leaked := ""
+		switch tc.method {
+		case "tools/list":
+			r, err := cs.ListTools(ctx, nil)
+			if err == nil && (len(r.Tools) > 0 && tc.what != "Tool.name" || r.NextCursor != "" || tc.what == "Tool.name" && len(r.Tools) == 1 && r.Tools[0].Name != "y") {
+				leaked = fmt.Sprintf("%+v", r)
+			}
+		case "prompts/list":
+			r, err := cs.ListPrompts(ctx, nil)
+			if err == nil && len(r.Prompts) > 0 {
+				leaked = fmt.Sprintf("%d prompts", len(r.Prompts))
+			}
+		case "resources/read":
+			r, err := cs.ReadResource(ctx, &ReadResourceParams{URI: "file:///r"})
+			if err == nil && len(r.Contents) > 0 {
+				leaked = fmt.Sprintf("%d contents", len(r.Contents))
+			}
+		case "tools/call":
+			r, err := cs.CallTool(ctx, &CallToolParams{Name: "t"})
+			if err == nil && len(r.InputRequests) > 0 {
+				leaked = fmt.Sprintf("%d input requests", len(r.InputRequests))
+			}
+		}
+		peer.Close()
+		cs.Close()
+		if leaked != "" {
+			cases.Violate(idx, "c19 case-insensitive-decoding "+tc.what, fmt.Sprintf("a %s result %s was decoded by the client session as if the wrongly-cased member were %s: %s", tc.method, tc.result, tc.what, leaked), 1)
+			continue
+		}
+		cases.Record(idx, "wrong-case-member-not-accepted", 1, func() string { return tc.method + " " + tc.result })
 	}
 }
 
